@@ -436,7 +436,9 @@ class Analyzer:
         if khi - klo <= 3:
             raise Split([[("lin", exact, k * M - H, k * M + H - 1)] for k in range(klo, khi + 1)], "wrap")
         st.wraps.append((inst.line, kind, None, opn, lo, hi))
-        return self.fresh(st, w, T(kind + ".wrap", w, exact.key()), -H, H - 1, tz, deps=(exact,))
+        r = self.fresh(st, w, T(kind + ".wrap", w, exact.key()), -H, H - 1, tz, deps=(exact,))
+        r.mlin = exact
+        return r
 
     def as_int(self, st, v, w=None):
         """IntV view of a value (BoolV -> 0/1 unsigned)"""
@@ -469,6 +471,9 @@ class Analyzer:
             return ul, lo, hi
         if v.tz >= k:
             return Lin.const(0), 0, 0
+        if v.mlin is not None and k <= v.w:
+            # the low k bits of the wrapped value are those of the exact (unwrapped) form
+            v = IntV(v.w + 200, v.mlin, *st.rng_lin_int(v.mlin), v.tz)
         lo, hi = st.rng(v)
         P = 1 << k
         jlo = lo >> k
@@ -478,6 +483,33 @@ class Analyzer:
             return l, lo - jlo * P, hi - jhi * P
         if jhi - jlo <= 1 and (k >= v.w - 1):
             raise Split([[("lin", v.lin, None, jhi * P - 1)], [("lin", v.lin, jhi * P, None)]], "lowbits")
+        L = v.lin
+        if L.d == 1:
+            # part that is a multiple of 2^k does not matter; constant and sign are canonicalised so that
+            # lowbits(L + c), lowbits(-L) and lowbits(L) share one symbol
+            rest = {s_: c_ for s_, c_ in L.t.items() if c_ % P}
+            if not rest:
+                c0 = L.cn % P
+                return Lin.const(c0), c0, c0
+            L0 = Lin(0, rest, 1, True)
+            sg, L0 = self.canon(L0)
+            c = L.cn % P
+            b_lo, b_hi = st.rng_lin_int(L0)
+            j0lo, j0hi = b_lo >> k, b_hi >> k
+            if j0lo == j0hi:
+                r0 = L0.addc(-j0lo * P)
+            else:
+                s0 = self.pmint(st, T("lowbits", L0.key(), k), 0, P - 1, (L0,))
+                st.constrain(L0.sub(Lin.sym(s0)), j0lo * P, j0hi * P, mod=P)
+                r0 = Lin.sym(s0)
+            # low bits of  sg*L0 + c  in terms of r0 = lowbits(L0)
+            t = r0.addc(c) if sg > 0 else r0.neg().addc(c)
+            tlo, thi = st.rng_lin_int(t)
+            q0, q1 = tlo >> k, thi >> k
+            if q0 == q1:
+                t = t.addc(-q0 * P)
+                return t, tlo - q0 * P, thi - q0 * P
+            raise Split([[("lin", t, q * P, q * P + P - 1)] for q in range(q0, q1 + 1)], "lowbits-carry")
         s = self.pmint(st, T("lowbits", v.lin.key(), k), 0, P - 1, (v.lin,))
         # relational fact: v - lowbits = 2^k * floor(v / 2^k), and the quotient lies in [jlo, jhi]
         st.constrain(v.lin.sub(Lin.sym(s)), jlo * P, jhi * P)
